@@ -32,4 +32,12 @@ PROPS = {
         "level_note": "Trusted: Coq kernel; the list model of the backing container (Vec/SmallVec correctness, including the inline-to-heap move, is std's/smallvec's); hook verif_rep reads the two private fields.",
         "assumptions": ["Vec<T> and SmallVec<A> behave as a list (push/pop/truncate/slice)", "Item: Copy values carry no ownership (as the trait requires)"],
     },
+    "C16": {
+        "families": ["sod"],
+        "n": {"quick": {"sod": 3000}, "thorough": {"sod": 60000}},
+        "rule": "exhaustive: 4 or 5 ascending pushes followed by every sequence of 4 (quick) / 5 (thorough) operations over {remove each key, pop_first, pop_last, push next, push low (panics iff not above last), clear}, then iter/first/last/is_empty; plus random histories of 6-120 operations over keys 0..8 including erased pushes and out-of-order pushes; both item conventions and both backings; after every operation every key 0..8 is looked up; distinct = distinct case line; non-trivial = some remove hit a live key",
+        "level_text": "Theorem C16_sorted_refines_map: for every operation history from the empty deque the faithful model of SortedDeque (tombstones, end clean-up, check_rep as Panic) produces exactly the outputs of the ordered-map specification, panics exactly where the specification does (only a live push whose key is not above the last item), and its live items are the map's contents, strictly sorted; the specification is shown to be an ordered map (found iff present, removed never found, first smallest, last largest). Proved by induction over unbounded histories. Tied to the code by exhaustive short and random long histories on both item conventions and both backings, debug and release, with every key looked up after every operation.",
+        "level_note": "Trusted: Coq kernel; list semantics of the underlying SlidingDeque (that is C15's theorem); std's binary_search_by returns the unique index with an Equal key on a strictly sorted slice; for the whole-item convention the order must ignore the erased flag (DESIGN.md O4).",
+        "assumptions": ["slice::binary_search_by contract on strictly sorted slices", "mark_erased preserves the comparison key (true by construction for (Key, Option<Value>))"],
+    },
 }
